@@ -270,6 +270,8 @@ pub fn optimize(input: &InFile, output: &OutFile, opts: &Options) -> PngResult<(
             let mut buffer = BufWriter::new(stdout());
             buffer
                 .write_all(&optimized_output)
+                // flush BufWriter so IO errors don't get swallowed silently by drop!
+                .and_then(|()| buffer.flush())
                 .map_err(|e| PngError::new(&format!("Unable to write to stdout: {e}")))?;
         }
         (OutFile::Path { path, .. }, _) => {
